@@ -85,7 +85,8 @@ SecTypes(pr) ==
     [] pr = "i64.wrap32" -> {"i32", "date", "f64"}
     [] pr \in {"i64.big53", "i64.edge"} -> {"f64"}
     [] pr \in {"f64.zeros", "f64.plain"} -> {"i64", "i32", "f32"}
-    [] pr \in {"date.small", "date.edge"} -> {"i32", "i64", "str"}
+    [] pr = "date.small" -> {"i32", "i64", "str"}
+    [] pr = "date.edge" -> {"i32", "i64"}                     \* the extremes of Date32 have no ISO text
     [] OTHER -> {}
 LitToks(pr, lt) ==
   CASE IsF(pr) /\ lt = "f64" -> Toks \cup {NaN}
